@@ -216,6 +216,11 @@ func c09Run(outer *testing.T, rt *rapid.T, rec *vfstat.Recorder, forceTyp int) {
 	sc.winDesc = fmt.Sprintf("w%d/%d", wi, si)
 	logKey := rapid.IntRange(0, 3).Draw(rt, "logKey")
 	sc.roots = rapid.SliceOfNDistinct(rapid.IntRange(0, 7), 2, 3, rapid.ID[int]).Draw(rt, "roots")
+	if rapid.IntRange(0, 2).Draw(rt, "rekeyedTwinRoot") == 1 {
+		// root id+8 is root id re-keyed: the same subject name and extensions, another key (a re-issued root)
+		sc.roots = append(sc.roots, sc.roots[0]+8)
+		rec.Add("scenarios-with-rekeyed-twin-root", 1)
+	}
 	clockBase := 1_700_000_000_000 + 1000*int64(rapid.IntRange(0, 1_000_000).Draw(rt, "clock"))
 	var now atomic.Int64
 	now.Store(clockBase)
